@@ -1,4 +1,11 @@
+def _args(run, tier, n, cases):
+    """two harness passes: HSMS-SS and SECS-I under the same engine"""
+    return [["-proto", "hsmsss", "-seed", run.seed, "-n", n, "-tier", tier, "-out", cases],
+            ["-proto", "secs1", "-seed", run.seed, "-n", max(1, n // 3), "-tier", tier, "-out", cases.replace(".cases", "_s1.cases")]]
+
+
 PROP = {
+    "harness_args": _args,
     "id": "C20",
     "harness": "c20",
     "driver": "c20",
